@@ -231,7 +231,13 @@ func c19Prefix(c *Ctx, a *guards.FuncAn, enc *ssa.Function) {
 			}
 		}
 	}
-	r.Check(okWrites, "R2.prefix", key+"/no-rewrite", P.Rel(enc.Pos()), "rows are never written after being appended", fmt.Sprintf("%s%d element stores, all into fresh make() slices", why, nst), true)
+	if okWrites {
+		r.OK("R2.prefix", key+"/no-rewrite", P.Rel(enc.Pos()), "rows are never written after being appended", fmt.Sprintf("%s%d element stores, all into fresh make() slices", why, nst), true)
+	} else {
+		// a store whose target this rule cannot tell apart from a data row: not a refutation (what Encode returns is
+		// decided for all data by R6.parity)
+		r.Unknown("R2.prefix", key+"/no-rewrite", P.Rel(enc.Pos()), "rows are never written after being appended", why)
+	}
 }
 
 // c19FindRows finds the row-building loop: a phi B = φ(empty, append(B, elem)) of the result type whose appended
